@@ -399,6 +399,10 @@ def mon_C11(tr):
         t = a.get(tid.get(dt['title']))
         if t is None:
             continue
+        unknown = [x for x in dt.get('after', []) if x not in tid]
+        if unknown:
+            out.append(('plan_accepted_with_undefined_after', dt['title'], unknown))
+            continue
         exp = sorted({tid[x] for x in dt.get('after', [])}, key=lambda s: s.encode())
         if t['deps'] != exp:
             out.append(('plan_edges', t['id'], t['deps'], exp))
